@@ -15,7 +15,7 @@ from vlib.runner import HERE, Outcome, hyp_search
 
 ID = "C12"
 LEVEL = "exploration"
-RULE = ("Each shard fixes a pool of 6 documents (generated ones that deliberately share object numbers, the resource "
+RULE = ("Each shard fixes a pool of 7 documents (generated ones that deliberately share object numbers, the resource "
         "name /F1, BaseFont names, base encodings differing only in /Differences, predefined CMap names with different "
         "ToUnicode maps, multi-page members, a grid of equidistant labels; plus repository samples incl. an AES-encrypted one and CJK ones). "
         "Hypothesis draws call histories (model-based op lists) run in one long-lived process: extract_text, "
@@ -45,12 +45,18 @@ def gen_doc(kind, variant):
         # same BaseFont + base encoding, different /Differences (shared EncodingDB tables must not be mutated)
         names = [["alpha", "beta", "gamma"], ["Agrave", "ccedilla", "eth"], ["uni0416", "u1F600", "bullet"],
                  ["fi", "fl", "A.swash"]][variant % 4]
-        enc = W.D(Type=W.N("Encoding"), BaseEncoding=W.N("WinAnsiEncoding"), Differences=[65] + [W.N(n) for n in names])
+        # variants 2/3 use StandardEncoding (implicitly) and a base encoding pdfminer has no table for: their
+        # /Differences must not leak into the table other documents share
+        base = [W.N("WinAnsiEncoding"), W.N("WinAnsiEncoding"), None, W.N("MacExpertEncoding")][variant % 4]
+        first = 70 if variant % 4 == 2 else 65  # variant 2 leaves codes 65-67 to the (shared) base table
+        enc = W.D(Type=W.N("Encoding"), Differences=[first] + [W.N(n) for n in names])
+        if base is not None:
+            enc[b"BaseEncoding"] = base
         objs[10] = W.D(Type=W.N("Font"), Subtype=W.N("Type1"), BaseFont=W.N("SharedBase"), FirstChar=32, LastChar=126,
                        Widths=[500 + 10 * variant] * 95, Encoding=enc,
                        FontDescriptor=W.D(Type=W.N("FontDescriptor"), FontName=W.N("SharedBase"), Flags=32,
                                           FontBBox=[0, 0, 1000, 1000], Ascent=800, Descent=-200))
-        pages = [b"BT /F1 12 Tf 50 700 Td (ABC abc) Tj 0 -14 Td (DEF %d) Tj ET" % variant,
+        pages = [b"BT /F1 12 Tf 50 700 Td (ABC abc FGH) Tj 0 -14 Td (DEF %d) Tj ET" % variant,
                  b"BT /F1 10 Tf 50 600 Td (CBA second page) Tj ET"]
     elif kind == "tounicode":
         # same font object number and name, different ToUnicode maps
@@ -118,17 +124,19 @@ def load_doc(spec):
 
 def make_pool(rnd):
     pool = []
-    k = rnd.choice(["simple", "tounicode", "cid"])
+    sv = rnd.choice([(0, 1), (2, 3), (3, 2), (0, 3), (1, 2), (3, 2)])
+    pool.append(["gen", "simple", sv[0]])
+    pool.append(["gen", "simple", sv[1]])
+    k = rnd.choice(["tounicode", "cid"])
     v = rnd.sample(range(4), 2)
     pool.append(["gen", k, v[0]])
     pool.append(["gen", k, v[1]])
-    k2 = rnd.choice([x for x in ["simple", "tounicode", "cid"] if x != k])
-    pool.append(["gen", k2, rnd.randrange(4)])
     pool.append(["gen", "grid", rnd.randrange(2)])
     for s in rnd.sample(SAMPLES, 2):
         pool.append(["sample", s[0], s[1]])
-    rnd.shuffle(pool)
-    return pool
+    order = list(range(len(pool)))
+    rnd.shuffle(order)
+    return [pool[i] for i in order]
 
 
 # ------------------------------------------------------------------ canonical results
@@ -325,7 +333,7 @@ def _pagesdiff(a, b):
 
 # ---------------------------------------------------------------------------------------------- generators
 def op_strategy():
-    d = st.integers(0, 5)
+    d = st.integers(0, 6)
     la = st.sampled_from(LAS)
     c = st.booleans()
     return st.one_of(
